@@ -1,6 +1,13 @@
-import Claripy.Solver.Spec
+import ClaripyProofs.Lemmas.Solver.Core
 /-!
 # C16 — unsat cores of tracked solvers
+
+Proved (Z3-object level, every oracle): after `check(assumptions)` answered `unsat`, `BackendZ3._unsat_core` returns
+only names of constraints asserted on that solver object (so the frontend maps them back to constraints the user
+added), and the constraints they name are unsatisfiable together with the unnamed assertions and the assumptions
+whenever the core Z3 reported is one (`CoreOk`, validated by the brute-force judge on every recorded core).
+The frontend layers above (`FullFrontend.unsat_core`, `SatCacheMixin` caching the core) are covered by the trace
+correspondence and the brute-force judge, see design_notes/C16.md.
 -/
 namespace Claripy.Props.C16
 open Claripy.Solver Claripy.Gen.SolverMro LayerName
@@ -9,5 +16,23 @@ theorem C16_mro_solver : mro .Solver =
     [ConcreteHandlerMixin, EagerResolutionMixin, ConstraintFilterMixin, ConstraintDeduplicatorMixin,
      SimplifySkipperMixin, SatCacheMixin, ModelCacheMixin, ConstraintExpansionMixin, SimplifyHelperMixin,
      FullFrontend, ConstrainedFrontend, Frontend] := by decide
+
+/-- the names `_unsat_core` returns: exactly the names of asserted constraints that Z3 put in its core -/
+theorem C16_core_ids (o : Z3Obj) (i : Nat) :
+    i ∈ coreIds o ↔ (∃ c ∈ o.asserted, c.tag = .con i) ∧ i ∈ o.lastCore := mem_coreIds o i
+
+/-- `check` then `_unsat_core` -/
+theorem C16_core_after_check (E : Env) (r : Nat) (asm : List ZCon) (s : St) (hr : r < s.objs.length) :
+    match z3Check E r asm s with
+    | (.ok none, s1) =>
+        ∃ core, E.oracle { asserted := (objAt s r).asserted, assumptions := asm } s.tick = .unsat core ∧
+          (objAt s1 r).frames = (objAt s r).frames ∧
+          ∃ ids, z3UnsatCore r s1 = (.ok ids, s1) ∧
+            (∀ i ∈ ids, ∃ c ∈ (objAt s r).asserted, c.tag = .con i) ∧
+            (CoreOk { asserted := (objAt s r).asserted, assumptions := asm } core →
+              ∀ a, ¬ (SatBy (namedBy (objAt s r).asserted ids) a ∧
+                      SatBy ((objAt s r).asserted.filter fun c => !c.isNamed) a ∧ SatBy asm a))
+    | _ => True :=
+  z3UnsatCore_after_check E r asm s hr
 
 end Claripy.Props.C16
